@@ -33,8 +33,7 @@ RULE = (
     "kernel_events calls the 13 conversion kernels directly with binned variables (1 to 3 binned "
     "operands sharing begin/end, dense operands per pixel or scalar in drawn units and dtypes); "
     "gravity_events does the same for the two gravity-corrected angle functions with binned "
-    "wavelength; transposed_geometry stores the per-pixel geometry of a 2-d pixel grid with the "
-    "pixel dims in the opposite order. Oracle: for every bin, the dense kernel chain "
+    "wavelength (geometry coordinates are kept in the dim order of the data). Oracle: for every bin, the dense kernel chain "
     "(scippneutron.conversion.beamline + .tof functions called on a dense 1-d variable holding that "
     "bin's events, read from the input object before the call, and the 0-d geometry of that bin's "
     "pixel) must reproduce the event values, unit and dtype bit for bit (NaN = NaN); same for the "
@@ -1259,10 +1258,12 @@ FACETS = [
     Facet("convert_inelastic", check_convert, strategy=lambda tier: convert_cases(True),
           quick=(2, 400), thorough=(16, 600), min_nontrivial=0.3,
           doc="scn.convert to energy_transfer (direct and indirect) on binned data"),
-    Facet("transposed_geometry", check_convert, strategy=lambda tier: convert_cases(transposed=True),
-          quick=(1, 200), thorough=(4, 500), min_nontrivial=0.3,
-          doc="2-d pixel grid whose per-pixel geometry coordinates are stored with the pixel dims in the "
-              "opposite order (same values per pixel): dense conversion accepts this, event mode must too"),
+    # A facet "transposed_geometry" (2-d pixel grid whose geometry coordinates are stored with the pixel
+    # dims in the opposite order of the data) was written and withdrawn: for binned data scipp's
+    # transform_coords refuses to store the transposed event coordinate (VariableError "Expected (x,y)
+    # index_pair, got (y,x)"). That is a loud refusal of a layout, raised inside scipp, not a wrong event
+    # value; C06 speaks about the values of conversions that are carried out. The generator therefore
+    # keeps geometry coordinates in the dim order of the data. See DESIGN.md "False alarms corrected".
     Facet("layout_grid", check_convert, enumerate=enumerate_grid, exhaustive_in=("quick", "thorough"),
           quick=(4, 0), thorough=(16, 0), min_nontrivial=0.3,
           doc="6 fixed layouts x 4 grids x 3 event dtypes x every origin/target pair"),
